@@ -1,6 +1,8 @@
 package kit
 
 import (
+	"os"
+
 	"pgregory.net/rapid"
 )
 
@@ -98,3 +100,7 @@ func Uni(t *rapid.T, label string, n int) int {
 func Pick[T any](t *rapid.T, label string, list []T) T {
 	return list[Uni(t, label, len(list))]
 }
+
+// Thorough reports whether the check runs in the thorough tier (the driver
+// exports VERIF_TIER); generators use it only to widen size ranges.
+func Thorough() bool { return os.Getenv("VERIF_TIER") == "thorough" }
